@@ -525,9 +525,14 @@ class CodeBuilder:
                     # we should allow this field to be present in the
                     # input. This will not work for annotated
                     # discriminators though...
-                    discr = self.get_discriminator(look_in_parents=True)
-                    if discr and discr.field is not None:
-                        allowed_keys.add(discr.field)
+                    # A class may be reached through the discriminator of
+                    # any of its ancestors, each with a field of its own.
+                    for ancestor in self.cls.__mro__:
+                        discr = self.get_config(
+                            ancestor, look_in_parents=False
+                        ).discriminator
+                        if discr and discr.field is not None:
+                            allowed_keys.add(discr.field)
 
                     if config.allow_deserialization_not_by_alias:
                         allowed_keys |= {f[0] for f in filtered_fields}
